@@ -206,7 +206,7 @@ impl TimerHandle {
 //@sig pub fn clear(self, Tracked(w): Tracked<&mut TW>)
 //@contract
         ensures *final(w) == (TW { clear_sent: old(w).clear_sent.push(self.timer_id), ..*old(w) }), // [C18/TimerHandle::clear/sends-exactly-its-own-timers-id-once]
-//@rule X6.world 1 s/\.abort\.send\(/.abort.send(Tracked(w), /
+//@rule X6.world 1 s/\.send\(/.send(Tracked(w), /
 //@end
 }
 
